@@ -103,6 +103,49 @@ fn blinding_sensitivity<G: CurveTag>(prog: &crate::program::Program, js: &[usize
             ));
         }
     }
+    // runs of equal blinding factors: (…, r, r, s, …) and (…, r, s, s, …) open the same commitments
+    // with different blinding vectors, so they key the RNG differently
+    let m = k as usize;
+    if m >= 3 {
+        let with_blind = |j: usize, b: u64| -> crate::program::Program {
+            let mut q = base.clone();
+            let mut i = 0usize;
+            for op in q.ops.iter_mut() {
+                if let Op::Commit { v, blind } = op {
+                    if i == j {
+                        // V_j = (v_j + 2·b_j)·B stays what it is
+                        let total = 10 + j as u64 + 2 * (5 + 3 * j as u64);
+                        *blind = ScalarSpec::Small(b);
+                        *v = ScalarSpec::Small(total - 2 * b);
+                    }
+                    i += 1;
+                }
+            }
+            q
+        };
+        let mut js = vec![1usize, m - 2];
+        js.dedup();
+        for j in js {
+            let (lo, hi) = (5 + 3 * (j as u64 - 1), 5 + 3 * (j as u64 + 1));
+            let pa2 = run_prover::<G>(&with_blind(j, lo), &ProveOpts { pc_gens: Some(pc2), ..Default::default() });
+            let pb2 = run_prover::<G>(&with_blind(j, hi), &ProveOpts { pc_gens: Some(pc2), ..Default::default() });
+            let (Some(fa), Some(fb)) = (pa2.proof.as_ref(), pb2.proof.as_ref()) else { continue };
+            if pa2.commitments != pb2.commitments || pa2.commitments != pa.commitments {
+                col.note("blinding sensitivity (equal neighbours): the openings do not give the same commitments (not evaluated)");
+                continue;
+            }
+            col.evals_add(1);
+            let (xa, xb) = (ProofMirror::from_proof(fa), ProofMirror::from_proof(fb));
+            if xa.A_I1 == xb.A_I1 || xa.S1 == xb.S1 {
+                return Err(Failure::new(
+                    "C09:rng-not-keyed-with-blinding",
+                    format!("commitment #{} opened with the blinding factor of its left neighbour and with that of its right neighbour (same commitments, transcript and external randomness) gives the same A_I1 / S1: runs of equal blinding factors do not all reach the prover RNG", j),
+                    json!({"program": base.to_json(), "commitment": j, "bases": "B_blinding = 2*B"}),
+                ));
+            }
+        }
+        col.class("blinding-sensitivity:equal-neighbours");
+    }
     col.class("blinding-sensitivity");
     Ok(())
 }
@@ -138,7 +181,7 @@ fn check_prog<G: CurveTag>(mut prog: crate::program::Program, ch: &mut Choices, 
         let all: Vec<usize> = (0..want.len()).collect();
         blinding_sensitivity::<G>(&prog, &all, col)?;
         col.class("rekey-not-literal(sensitivity-checked)");
-    } else if !want.is_empty() && ((mode == 2 && want.len() >= 1000) || (mode != 2 && ch.chance(40))) {
+    } else if !want.is_empty() && ((mode == 2 && want.len() >= 1000) || (mode != 2 && ch.chance(if want.len() >= 3 { 110 } else { 40 }))) {
         let m = want.len();
         let mut js = vec![0, m / 2, m.saturating_sub(2), m - 1];
         js.sort();
